@@ -100,10 +100,11 @@ Proof. induction l as [|a l IH]; intro acc; simpl; auto. Qed.
 Lemma model_terms_length facX N t u s acc xs es : length es = length xs ->
   length (model_terms facX N t u s acc xs es) = length xs.
 Proof.
-  intro H. unfold model_terms.
+  intro H. unfold model_terms, model_terms_z. cbv zeta.
   assert (L3 : length (map3 facX xs es (mscan (mu_out N t) sj_step s xs)) = length xs).
   { apply map3_length3; [auto | now rewrite mscan_length]. }
-  rewrite map2_length; rewrite ?mscan_length; auto. now rewrite xcumprod_length, L3.
+  rewrite map2_length; rewrite ?mscan_length; auto.
+  rewrite absorb_length; [now rewrite L3 | apply xcumprod_length].
 Qed.
 Lemma alpha_etas_length e N t u xs : length (alpha_etas sqrtq e N t u xs) = length xs.
 Proof. unfold alpha_etas. rewrite map2_length; unfold run_estim, mu_list; rewrite !run_machine_length; auto. Qed.
@@ -132,15 +133,15 @@ Lemma kk_hist_firstn g ro N t xs k :
   firstn k (snd (kaplan_kolmogorov g ro N t xs)) = snd (kaplan_kolmogorov g ro N t (firstn k xs)).
 Proof.
   unfold kaplan_kolmogorov; cbn [snd].
-  rewrite firstn_map, map3_firstn, xcumprod_firstn, map2_firstn.
+  cbv zeta. rewrite firstn_map, map3_firstn, absorb_firstn, xcumprod_firstn, map2_firstn.
   unfold mu_list. rewrite !run_machine_firstn, !firstn_map. reflexivity.
 Qed.
 Lemma km_hist_firstn g ro t xs k :
   firstn k (snd (kaplan_markov g ro t xs)) = snd (kaplan_markov g ro t (firstn k xs)).
-Proof. unfold kaplan_markov; cbn [snd]. now rewrite firstn_map, xcumprod_firstn, firstn_map. Qed.
+Proof. unfold kaplan_markov; cbn [snd]. cbv zeta. now rewrite firstn_map, absorb_firstn, xcumprod_firstn, firstn_map. Qed.
 Lemma kw_hist_firstn g ro t xs k :
   firstn k (snd (kaplan_wald g ro t xs)) = snd (kaplan_wald g ro t (firstn k xs)).
-Proof. unfold kaplan_wald; cbn [snd]. now rewrite firstn_map, xcumprod_firstn, firstn_map. Qed.
+Proof. unfold kaplan_wald; cbn [snd]. cbv zeta. now rewrite firstn_map, absorb_firstn, xcumprod_firstn, firstn_map. Qed.
 
 (* ---- the property for every test of the library ---- *)
 Definition hist (c : cfg) (xs : list Q) : list Xq := snd (run_test sqrtq c xs).
